@@ -3,15 +3,15 @@ import json,subprocess
 props=[json.loads(l) for l in open('/verif/properties.jsonl')]
 MC="model_checking"; FE="fault_enumeration"
 claimed={
- "C01":("SEQ",MC,"explicit-state BFS over write histories on the real store vs reference model","2.2, 3/C01"),
- "C02":("SEQ",MC,"explicit-state BFS over writes interleaved with token-carrying readers vs reference feed","2.2, 3/C02"),
- "C03":("SEQ",MC,"explicit-state BFS over reference-shaped write histories; all relationship queries vs model graph","2.2, 3/C03"),
- "C04":("CRASH",FE,"exhaustive kill-point enumeration (real SIGKILL before every durable commit and at every named point) of enumerated write histories","2.4, 3/C04"),
+ "C01":("SEQ+SCHED",MC,"explicit-state BFS over write histories (incl. refused writes; a second search next to deleted datasets) on the real store vs reference model; the same observations over HTTP; preemption-bounded schedules of overlapping writers","2.2, 3/C01"),
+ "C02":("SEQ+SCHED",MC,"explicit-state BFS over writes (batches, transactions, refused writes) interleaved with token-carrying readers vs reference feed; HTTP and javascript faces; preemption-bounded schedule of writers next to a token-following reader","2.2, 3/C02"),
+ "C03":("SEQ",MC,"explicit-state BFS over reference-shaped write histories; all relationship queries vs model graph; POST /query (single and several starting entities, continuations followed) and javascript bindings","2.2, 3/C03"),
+ "C04":("CRASH+SCHED",FE,"exhaustive kill-point enumeration (real SIGKILL before every durable commit and at every named point) of enumerated write histories incl. large batches, contextual-store transactions, retries after a refused batch and dataset management; preemption-bounded schedules of overlapping writers","2.4, 3/C04"),
  "C05":("SCHED",MC,"stateless preemption-bounded exploration of real goroutines under a controlled scheduler; linearizability oracle","2.3, 3/C05"),
- "C06":("SEQ",MC,"explicit-state BFS, differential oracle on recorded instants","2.2, 3/C06"),
- "C07":("SEQ+CRASH",MC,"explicit-state BFS over dataset-management histories vs incarnation model + exhaustive kill-point enumeration inside create/rename/delete/GC","2.2, 2.4, 3/C07"),
- "C13":("ENUM+SEQ+CRASH+SCHED",MC,"exhaustive URI grammar round trip; BFS over first-use orders with restarts; kill-point enumeration; preemption-bounded schedules with happens-before monitor","3/C13"),
- "C19":("SEQ+SCHED",MC,"explicit-state BFS over catalogue histories vs reference model; preemption-bounded schedules of concurrent writers","3/C19"),
+ "C06":("SEQ",MC,"explicit-state BFS, differential oracle on recorded instants; paged current-state queries continued after later writes","2.2, 3/C06"),
+ "C07":("SEQ+CRASH+SCHED+ENUM",MC,"explicit-state BFS over dataset-management histories (plain, proxy, virtual datasets) vs incarnation model + exhaustive kill-point enumeration inside create/rename/delete/GC; one preemption-bounded scenario; one enumerated long history beyond the GC batch size","2.2, 2.4, 3/C07"),
+ "C13":("ENUM+SEQ+CRASH+SCHED",MC,"exhaustive URI grammar round trip; BFS over first-use orders with restarts, refused batches, contextual-store transactions and lookups; the same with one injected storage write error as a deviation; read sequences over HTTP; kill-point enumeration; preemption-bounded schedules with happens-before monitor","3/C13"),
+ "C19":("SEQ+SCHED+ENUM",MC,"explicit-state BFS over catalogue histories vs reference model; preemption-bounded schedules of concurrent writers; one enumerated long history beyond 1000 datasets","3/C19"),
 }
 import os
 extra=os.path.join('/verif/tools/claimed_extra.json')
